@@ -19,7 +19,8 @@ from concurrent.futures import ThreadPoolExecutor
 import vlib
 
 PID = "C17"
-NSHARD = 14
+SHARD_LINES = 30000      # script lines per trace file (one TLC process of about 1.5 GB each)
+POOL = max(2, min(12, vlib.NCPU - 3))
 
 MC = """SPECIFICATION Spec
 CONSTANTS
@@ -167,6 +168,9 @@ def random_ops(rng, weighted):
     """a split / merge history over a random sequence: parts summarised separately and merged"""
     cls = rng.choice(["small", "small", "wide", "offset", "offset", "const", "twoval", "outlier", "tiny"])
     L = rng.choice([0, 1, 2, 3, 4, 5, 6, 8, 11, 16, 24])
+    long_run = rng.random() < 0.05       # a long first part, fed through cmb_dataset / cmb_timeseries summarize
+    if long_run:
+        L = rng.choice([65, 130, 500, 1500])
     if cls == "small":
         xs = [rng.randint(-8, 8) for _ in range(L)]
     elif cls == "wide":
@@ -200,14 +204,14 @@ def random_ops(rng, weighted):
         data = [(x, 1) for x in xs]
     ops = []
     nparts = rng.choice([1, 2, 2, 3, 3])
-    cuts = sorted(rng.randint(0, L) for _ in range(nparts - 1))
+    cuts = sorted((L - rng.randint(0, 5)) if long_run else rng.randint(0, L) for _ in range(nparts - 1))
     parts = [data[a:b] for a, b in zip([0] + cuts, cuts + [L])]
     objs = [1, 2, 3]
     rng.shuffle(objs)
     # fill the parts, interleaved
     todo = [(objs[i], list(p)) for i, p in enumerate(parts)]
     filled = {o: 0 for o in objs}
-    mode = rng.random()
+    mode = 0.0 if long_run else rng.random()
     if mode < 0.2 and not weighted and parts[0]:
         ops.append((4, todo[0][0], tuple(x for x, _ in todo[0][1]), 0)); todo[0] = (todo[0][0], [])
     if mode < 0.25 and weighted and parts[0]:
@@ -246,7 +250,7 @@ def build_groups(gen, tier, hists_plain, hists_wtd):
     rng = gen.rng
     ident = affine(1, 0)
     # 1. TLC-exported histories
-    np_, nw_ = (1500, 500) if tier == "quick" else (20000, 5000)
+    np_, nw_ = (1500, 500) if tier == "quick" else (14000, 4000)
     sel_p = hists_plain if len(hists_plain) <= np_ else rng.sample(hists_plain, np_)
     sel_w = hists_wtd if len(hists_wtd) <= nw_ else rng.sample(hists_wtd, nw_)
     for i, h in enumerate(sel_p):
@@ -258,7 +262,7 @@ def build_groups(gen, tier, hists_plain, hists_wtd):
         a, b, se = fr[i % len(fr)]
         gen.weighted_group(h, affine(a, b), se, "tlc-wtd", full=(i % 2 == 0))
     # 2. seeded random split / merge histories
-    nrp, nrw = (500, 250) if tier == "quick" else (6000, 3000)
+    nrp, nrw = (500, 250) if tier == "quick" else (5000, 2500)
     for i in range(nrp):
         g = gen.new_group("rnd-plain")
         gen.plain_history(g, random_ops(rng, False), ident, rng.choice([0, 0, 0, -200, 200, -30, 17, 3, -3]))
@@ -279,9 +283,9 @@ def record_and_validate(v, exe, vn, groups_by_shard, gen, out, grp_index):
         rc, o = vlib.run([exe, "script", sp, tp], timeout=1800)
         if rc not in (0, 3):
             raise vlib.MachineryError("sum_replay failed rc=%d: %s" % (rc, o[-1500:]))
-        tv = vlib.validate_trace(PID, "SummaryTrace", tp, tag="tv_%s_%02d" % (vn, si), timeout=3000)
+        tv = vlib.validate_trace(PID, "SummaryTrace", tp, tag="tv_%s_%02d" % (vn, si), timeout=3000, heap="4g")
         return si, sp, tp, rc, o, tv
-    with ThreadPoolExecutor(max_workers=min(NSHARD, max(2, vlib.NCPU - 2))) as ex:
+    with ThreadPoolExecutor(max_workers=POOL) as ex:
         results = list(ex.map(one, range(len(groups_by_shard))))
     nh = nobs = 0
     for si, sp, tp, rc, o, tv in results:
@@ -340,6 +344,9 @@ def run(tier, replay=None):
         "merging a summary with itself (both sources the same object) is not exercised",
     ]
     out = vlib.outdir(PID)
+    for fn in os.listdir(out):
+        if fn.startswith(("script_", "trace_")):
+            os.remove(os.path.join(out, fn))
     vlib.build_lib(PID, "rel")
     variants = [("rel", vlib.cc_harness(PID, "rel", "sum_replay"))]
     if tier == "thorough":
@@ -361,8 +368,12 @@ def run(tier, replay=None):
             pv = re.search(r'pv \|-> "([^"]*)"', rj["detail"])
             v.violation("C17|%s|%s" % (rj["rule"], pv.group(1) if pv else ""), replay,
                         "%s line %d of %s: %s" % (rj["rule"], rj["line"], tp, rj["detail"][:260]))
-        nh = sum(1 for l in open(tp) if l.startswith('{"op":"init"'))
-        v.cov["traces_validated_against_impl"] = v.cov["evaluations"] = v.cov["distinct_nontrivial"] = nh
+        with open(tp) as f:
+            lines = f.readlines()
+        nh = sum(1 for l in lines if l.startswith('{"op":"init"'))
+        v.cov["traces_validated_against_impl"] = v.cov["distinct_nontrivial"] = nh
+        v.cov["evaluations"] = sum(1 for l in lines if l.startswith('{"op":"obs'))
+        v.sample([l.strip()[:300] for l in lines[1:5]])
         v.cov["rule"] = "replay of one saved group of histories"
         return v.finish()
 
@@ -389,6 +400,7 @@ def run(tier, replay=None):
         if r.violated:
             raise vlib.MachineryError("Summary model violates %s in config %s (model defect):\n%s" % (r.violated, name, r.out[-3000:]))
         if par["export"] == "TRUE":
+            # (which of the equivalent paths to a state carries an exported transition depends on TLC's worker scheduling)
             hs = parse_hists(r.out)
             if len(hs) != r.generated - 1:
                 v.notes.append("config %s: %d histories exported for %d transitions" % (name, len(hs), r.generated - 1))
@@ -403,9 +415,10 @@ def run(tier, replay=None):
     if gen.groups:
         mid = gen.groups[len(gen.groups) // 2]
         v.sample({"group": mid[2], "script": mid[1][:14]})
-    shards = [[] for _ in range(NSHARD)]
+    nshard = max(POOL, sum(len(g[1]) for g in gen.groups) // SHARD_LINES + 1)
+    shards = [[] for _ in range(nshard)]
     order = sorted(gen.groups, key=lambda g: -len(g[1]))
-    load = [0] * NSHARD
+    load = [0] * nshard
     for g in order:
         i = load.index(min(load))
         shards[i].append(g); load[i] += len(g[1])
